@@ -40,7 +40,8 @@ def gen_meas_table(R, ctx):
                         v[r] = sg * val; r += 1
                 st = st + "+sentinel2"
         cols.append(v); styles.append(st)
-    ap = AnonymizationParams(salt=R.getrandbits(64).to_bytes(8, "little"))
+    # most tables share one salt (and the column names c0, c1, ...): what is measured on one forest must not leak into the next
+    ap = AnonymizationParams(salt=b"meas-one" if R.random() < 0.6 else R.getrandbits(64).to_bytes(8, "little"))
     return {"names": [f"c{j}" for j in range(ncols)], "cols": cols, "styles": styles, "pids": None, "pid_mode": "unique", "ap": ap, "bp": BucketizationParams(), "n": n}
 
 
@@ -107,7 +108,7 @@ def stream_ranking(ctx, built=False):
         t = {"names": ["a", "b", "c", "u", "z"], "cols": [[float(x) for x in a], [float(perm[x]) for x in a], [float(R.randrange(k)) for _ in range(n)],
                                                            [float(i % k) for i in range(n)], [3.0] * n],
              "styles": ["cat", "fn", "cat", "uniform", "const"], "pids": None, "pid_mode": "unique",
-             "ap": AnonymizationParams(salt=R.getrandbits(64).to_bytes(8, "little")), "bp": BucketizationParams(), "n": n}
+             "ap": AnonymizationParams(salt=b"rank-one" if R.random() < 0.6 else R.getrandbits(64).to_bytes(8, "little")), "bp": BucketizationParams(), "n": n}
         F, _ = TS.build_real(t)
         m = measure_all(F); dm, ent = m.dependency_matrix, m.entropy_1dim
         rec = {"n": n, "k": k, "dep(a,fn(a))": round(float(dm[0, 1]), 3), "dep(a,indep)": round(float(dm[0, 2]), 3),
